@@ -271,3 +271,12 @@ package util
 //@   loop 1 hint unfold(csum(elems(sl), soff(sl), rangeindex+2))
 //@   loop 1 inithint unfold(csum(elems(sl), soff(sl), 0))
 //@   posthint unfold(csum(elems(sl), soff(sl), 0))
+
+// ---- used by the stream header protocol (C30) ------------------------------------------
+//@ func EnsureWrite
+//@   prop C30
+//@   requires w != nil && wlen >= 0
+//@   modifies ghost:wout, ghost:wlen
+//@   ensures r1 == nil ==> r0 == len(b) && wlen == old(wlen) + len(b) && forall(q, 0 <= q && q < len(b) ==> wout[old(wlen) + q] == b[q])
+//@   ensures forall(q, 0 <= q && q < old(wlen) ==> wout[q] == old(wout)[q])
+//@   ensures wlen >= old(wlen)
